@@ -25,7 +25,7 @@ MANIFEST = {
                  'Transitions.split, induction lemmas on the bin sequence; z3/cvc5; counter-models replayed natively; random stand-in',
 }
 UNITS = ['unit_split_events', 'unit_bins', 'unit_transitions_split', 'unit_window_lemmas']
-BOUNDED = ['bounded_split']
+BOUNDED = ['bounded_split', 'bounded_purity']
 META = {
     'clauses': {'C19.bins': 'P', 'C19.events': 'P', 'C19.states': 'A (array_split) + P (call arguments)', 'C19.parts': 'P',
                 'C19.traj': 'see C15.split', 'C19.jumps': 'known finding C19-empty-part', 'C19.sub': 'P (window lemma, injectivity) + argued counting step + B'},
@@ -493,3 +493,10 @@ def bounded_split(tier, seed):
         if r['reproduced']:
             st.violation('split', r['detail'], 'verif.props.c19:replay_split', inp)
     return st.result()
+
+
+# generic purity stand-in (arguments unchanged, second call equal, fresh call equal) over this property's API calls
+from verif.native.purity import make_bounded as _make_purity  # noqa: E402
+from verif.props.purity_reg import REG as _PURITY_REG  # noqa: E402
+PURITY = _PURITY_REG['C19']
+bounded_purity = _make_purity('C19', PURITY)
